@@ -247,6 +247,11 @@ pub fn apply_fn_model(name: &str, m: &FnModel, arg: &RV) -> Result<RV, RErr> {
             RV::Int(k) => Ok(RV::Float(*k as f64 / 2.0)),
             _ => Err(user("model function: not an int".to_string())),
         },
+        FnModel::Nested => Ok(RV::Tuple(vec![arg.clone(), RV::Int(3)])),
+        FnModel::NeedsTuple => match arg {
+            RV::Tuple(t) => Ok(RV::Int(t.len() as i64)),
+            _ => Err(RErr::Class(ErrClass::Type)),
+        },
     }
 }
 
